@@ -334,7 +334,9 @@ Section SemanticsEll.
         match ell_rank tl (length (shape B)), ell_rank tr (length (shape x)) with
         | Some eB, Some ex =>
             let m := Nat.max eB ex in
-            if count_ell to <=? 1 then
+            (* at most 64 ellipsis dimensions (NumPy/JAX allow fewer): the fresh letters stay
+               distinct from each other and from 7-bit characters *)
+            if (count_ell to <=? 1) && (m <=? 64) then
               einsum_plain K k0 kadd kmul (expand tl eB m) (expand tr ex m) (expand to m m) B x
             else None
         | _, _ => None
